@@ -2,7 +2,7 @@
    md5 is universally quantified everywhere (a Section variable in Model.v). *)
 From Coq Require Import String List Bool ZArith Permutation.
 Import ListNotations.
-Require Import V.Lib.PyStr V.Lib.JTree V.Memo.Model V.Memo.Proofs V.Memo.Entries V.Memo.Chain V.Memo.Regex V.Memo.Order V.Memo.Examples V.Memo.History.
+Require Import V.Lib.PyStr V.Lib.JTree V.Memo.Model V.Memo.Proofs V.Memo.Entries V.Memo.Chain V.Memo.Regex V.Memo.Order V.Memo.Examples V.Memo.History V.Memo.Cached.
 Open Scope string_scope.
 
 (* The closed form [serialise] is the coded traversal applied to the info dictionary. *)
@@ -216,6 +216,35 @@ Theorem C16_rewrite_same : forall loc mt st g,
 Proof. exact rewrite_same. Qed.
 Print Assumptions C16_rewrite_same.
 
+(* Asks on objects that REMEMBER ([csession]: the same ComponentSpecification objects asked again without
+   memoization_reset(); an info that was computed is kept, "no info now" is not).  Whenever what the objects remember
+   agrees with the current state of the files, an ask answers exactly the infos of that state -- what objects that were
+   never asked answer -- and what is remembered afterwards still agrees with it. *)
+Theorem C16_cached_ask : forall md5 g cs cf (fuzzy : bool) sel t,
+  valid (if fuzzy then cf else cs) (infos md5 fuzzy g) ->
+  hd [] (csession md5 g cs cf (CAsk fuzzy sel :: t)) = pick (infos md5 fuzzy g) sel /\
+  valid (remember (if fuzzy then cf else cs) (vals_acc (cstep md5 fuzzy) (if fuzzy then cf else cs) [] g) sel) (infos md5 fuzzy g).
+Proof. exact cached_ask. Qed.
+Print Assumptions C16_cached_ask.
+
+(* ... the same for the character-level model of the argument rewriting ... *)
+Theorem C16_cached_ask_chars : forall md5 g cs cf (fuzzy : bool) sel t,
+  valid (if fuzzy then cf else cs) (infos_chars md5 fuzzy g) ->
+  hd [] (csession_chars md5 g cs cf (CAsk fuzzy sel :: t)) = pick (infos_chars md5 fuzzy g) sel.
+Proof. exact cached_ask_chars. Qed.
+Print Assumptions C16_cached_ask_chars.
+
+(* ... in particular a component that was asked EARLY, while a referenced input was missing (no info, no hash), gets the
+   info and hash of the work it does as soon as the input is there, on the same objects and without a reset: when the
+   writes change none of the infos that the first ask did compute, the second ask answers the infos of the files as they
+   are now. *)
+Theorem C16_asked_early : forall md5 g (fuzzy : bool) sel ws sel',
+  (forall k x, existsb (Nat.eqb k) sel = true -> nth k (infos md5 fuzzy g) None = Some x ->
+               nth k (infos md5 fuzzy (writes ws g)) None = Some x) ->
+  last (csession md5 g [] [] (CAsk fuzzy sel :: wops ws ++ [CAsk fuzzy sel'])) [] = pick (infos md5 fuzzy (writes ws g)) sel'.
+Proof. exact asked_early. Qed.
+Print Assumptions C16_asked_early.
+
 (* non-vacuity: a producer and a consumer of its file out.txt and of an input; md5 s = "<s>" *)
 Definition ex_md5 (s : string) : string := "<" ++ s ++ ">".
 Definition ex_prod : comp := {| c_name := "gen"; c_stage := 0; c_location := "/tmp/i1"; c_exe := "echo";
@@ -318,3 +347,27 @@ Example C16_nonvacuous_history :
   last (session ex_md5 g (ops ++ [OAsk true [1%nat]])) [] = pick (infos ex_md5 true g) [1%nat] /\
   map core (write "/tmp/i1/stages/stage0/gen/out.txt" 99 (FFile "OUT") g) = map core g.
 Proof. vm_compute. repeat split; try reflexivity; congruence. Qed.
+
+(* non-vacuity of C16_asked_early: the chain gen -> mid -> last is asked while gen has not written out.txt yet (mid and,
+   through the hash of its producer, last have no fuzzy info), gen writes out.txt, the same objects are asked again: all
+   three have the infos of an instance that was never asked early.  The hypothesis is needed: when out.txt is then
+   overwritten with other contents the objects keep answering what they computed (strong infos). *)
+Example C16_nonvacuous_asked_early :
+  let full := ch_gen "-n hello" :: ch_rest in
+  let g := write "stages/stage0/gen/out.txt" 0 FMissing full in
+  let ws := [("stages/stage0/gen/out.txt", 9%Z, FFile "OUT")] in
+  let all := [0; 1; 2]%nat in
+  (forall k x, existsb (Nat.eqb k) all = true -> nth k (infos ex_digest true g) None = Some x ->
+               nth k (infos ex_digest true (writes ws g)) None = Some x) /\
+  csession ex_digest g [] [] (CAsk true all :: wops ws ++ [CAsk true all]) =
+    [ [nth 0 (infos ex_digest true full) None; None; None]; infos ex_digest true full ] /\
+  forallb (fun o => match o with Some _ => true | None => false end) (infos ex_digest true full) = true /\
+  (let ops := CAsk false all :: wops [("stages/stage0/gen/out.txt", 10%Z, FFile "TUO")] ++ [CAsk false all] in
+   last (csession ex_digest full [] [] ops) [] = infos ex_digest false full /\
+   last (csession ex_digest full [] [] ops) [] <> infos ex_digest false (writes [("stages/stage0/gen/out.txt", 10%Z, FFile "TUO")] full)).
+Proof.
+  cbv zeta. split.
+  - intros k x S. do 3 (destruct k as [|k]; [vm_compute; intros H; first [exact H|discriminate H]|]). discriminate S.
+  - split; [vm_compute; reflexivity|]. split; [vm_compute; reflexivity|]. split; [vm_compute; reflexivity|].
+    vm_compute. intros H. discriminate H.
+Qed.
